@@ -15,7 +15,7 @@ CHECKS = {
     'C01': dict(engine='Sched', also=['EnvOps'], category='model_checking', design_ref='DESIGN.md §4 C01',
                 text='Sched.tla models master and workers of the queue backend at the grain of their synchronisation points; TLC explores every '
                      'interleaving for all 2- and 3-task hard/soft graphs x outcomes x initial environments x 1-3 workers and checks that what a '
-                     'task reads at the first instruction of do() is final and completely published (history variable seen). Bound to the code: '
+                     'task reads at the first instruction of do() is final and completely published (history variable seen), and that no dependency begins an execution after one of its dependents began (C01_NoLateDep). Bound to the code: '
                      'simulated TLC behaviours are forced step by step on the real Scheduler under a deterministic scheduler with state '
                      'comparison, and random/PCT/DFS schedules of the real code (up to 5 tasks, 4 workers) are validated by TLC (SchedTrace).',
                 note=_SCHED_NOTE, technique='TLA+ spec of the scheduler + TLC exhaustive interleavings; replay into the real threads code under a '
